@@ -182,6 +182,15 @@ def u_cached(ctx):
     st.env.update(cache=d, lock=Opaque("lock"), func=Fn(func), args=("ARGS",), kwargs=st.new("kwdict", {"@items": {"KW": "KWVAL"}}))
 
     eng.methods[("kwdict", "items")] = lambda e, s, recv, a, k: [(("KWITEMS",), s)]
+    eng.methods[("kwdict", "keys")] = lambda e, s, recv, a, k: [(("KWNAMES",), s)]
+    eng.methods[("kwdict", "values")] = lambda e, s, recv, a, k: [(("KWVALUES",), s)]
+    orig_iter_concrete = eng.iter_concrete
+
+    def iter_concrete(v, s_):
+        if isinstance(v, Ref) and v.cls == "kwdict":
+            return ["KWNAMES"]             # iterating a dict gives its keys: the keyword NAMES, without their values
+        return orig_iter_concrete(v, s_)
+    eng.iter_concrete = iter_concrete
     eng.label = "C15/cached.wrapper"
     outs = run_function(eng, wrapper, st)
     for kind, val, s in outs:
